@@ -33,7 +33,7 @@ m = {
     'setup_cmd': 'python3 tool/weave.py --out build/setup/hoot_verus.rs',
     'hooks': {
         'guard': 'none',
-        'enable': 'no source hooks: functions are extracted from /repo/src by tool/weave.py; nothing in /repo is compiled with a flag',
+        'enable': 'no source hooks in /repo: functions are extracted from /repo/src by tool/weave.py. The native twins and the Kani harnesses are added to a SCRATCH COPY of /repo at check time (tests/verif_twin.rs; `#[cfg(kani)] mod verif_kani*;` appended to src/lib.rs and src/body.rs of the copy, compiled only by cargo kani) and the copy is deleted afterwards',
         'baseline_off_cmd': 'cd /repo && cargo test --workspace --no-fail-fast --offline',
         'source_commits': [],
         'add_only': True,
